@@ -98,7 +98,7 @@ class Engine:
         return p.returncode == 0 and p.stdout == original
 
     # ------------------------------------------------------------------ compress (+ round trip)
-    def compress_case(self, data, size_name, level, explicit, input_exists=True, creatable=True):
+    def compress_case(self, data, size_name, level, explicit, input_exists=True, creatable=True, preexisting=False):
         d = self.fresh()
         name = "input.bin"
         if input_exists:
@@ -109,6 +109,11 @@ class Engine:
             explicit = True
         else:
             out_rel = "explicit-out.zst" if explicit else name + ".zst"
+        if preexisting and creatable:
+            # the output path already holds a LONGER file (an older archive): it must be replaced, not overwritten in place
+            with open(os.path.join(d, out_rel), "wb") as f:
+                f.write(b"older archive contents " * (len(data) // 8 + 200))
+            size_name += "/output-preexists"
         args = ["compress", name] + ([out_rel] if explicit else []) + ([] if level is None else ["--level", str(level)])
         rc, panicked, err = self.run(args, d)
         ex = exit_class(rc)
@@ -194,6 +199,10 @@ class Engine:
         elif kind == "truncated":
             valid = 0
             open(os.path.join(d, arch), "wb").write(frame[: len(frame) // 2])
+        elif kind in ("truncated_head", "truncated_tail1", "truncated_tail4"):
+            valid = 0
+            cut = {"truncated_head": 12, "truncated_tail1": len(frame) - 1, "truncated_tail4": len(frame) - 4}[kind]
+            open(os.path.join(d, arch), "wb").write(frame[:cut])
         elif kind == "bad_block":
             valid = 0
             b = bytearray(frame)
@@ -234,6 +243,10 @@ class Engine:
             self.fail(f"cli_decompress_panic:{kind}", f"decompress ({kind}): exit status {rc}, panicked", replay)
         if destroyed:
             self.fail(f"cli_decompress_clobbers_input:{kind}", f"decompress ({kind}) `{' '.join(args)}`: exit status {rc}; the input archive ({len(before)} bytes) was truncated to {len(after) if after is not None else 0} bytes — the output path equals the input path and `File::create` runs before anything is read", replay)
+        # "when an operation cannot be carried out the tool reports failure through its exit status": an archive that is
+        # missing, is not a frame, or stops before its end cannot be decompressed
+        if (kind in ("missing", "corrupt_magic") or kind.startswith("truncated")) and ex == "ok":
+            self.fail(f"cli_decompress_success_on_unusable_archive:{kind}", f"decompress ({kind}) `{' '.join(args)}`: exit status 0 although the archive cannot be decompressed (output: {out_state})", replay)
         if kind == "good" and (ex != "ok" or out_state != "complete"):
             self.fail("cli_decompress_reference_frame", f"decompress of a frame written by the reference zstd: exit {rc}, output {out_state}", replay)
         self.case(f"cli decompress {exists} {valid} {creatable} {same}", f"exit={ex} out={out_state} input={'destroyed' if destroyed else 'kept'}")
@@ -266,10 +279,14 @@ class Engine:
             small = content(rnd, 3000, 2)
             for level in (None, 0, 1, 2, 3, 4, 5, 9, 255, 256, 300):
                 self.compress_case(small, "3000/kind2", level, False)
+            for level in (None, 0, 1):
+                for explicit in (True, False):
+                    self.compress_case(small, "3000/kind2", level, explicit, preexisting=True)
+            self.compress_case(content(rnd, 200000, 1), "200000/kind1", None, True, preexisting=True)
             for level in (None, 1, 2, 9):
                 self.compress_case(small, "3000/kind2", level, False, input_exists=False)
                 self.compress_case(small, "3000/kind2", level, True, creatable=False)
-            for kind in ("good", "missing", "corrupt_magic", "truncated", "bad_block", "uncreatable", "same_default", "same_explicit"):
+            for kind in ("good", "missing", "corrupt_magic", "truncated", "truncated_head", "truncated_tail1", "truncated_tail4", "bad_block", "uncreatable", "same_default", "same_explicit"):
                 self.decompress_case(kind, rnd)
             # compress onto the input path itself
             d = self.fresh()
